@@ -125,6 +125,14 @@ def _pow(a, b):
     return _chk(a ** b)
 
 
+def _realize(v):
+    try:
+        from crosshair.core import realize
+        return realize(v)
+    except Exception:  # noqa: BLE001
+        return v
+
+
 def _nonneg(a):
     if a < 0:
         raise Panic("conversion between int and nat out of range")
@@ -248,11 +256,13 @@ class Interp:
                 return Arr(args), {}
             if cn == "ArrayGetitemCompiler":
                 a, i = args
+                i = _realize(i)
                 if not (0 <= i < len(a.v)):
                     raise OutsideIndex()
                 return a.v[i], {0: a}
             if cn == "ArraySetitemCompiler":
                 a, i, v = args
+                i = _realize(i)
                 if not (0 <= i < len(a.v)):
                     raise OutsideIndex()
                 return None, {0: Arr(a.v[:i] + (v,) + a.v[i + 1:])}
